@@ -140,6 +140,19 @@ func TestVerifC04Cuts(t *testing.T) {
 			vC04CaseCut(out, r, plan)
 		}
 	}
+	// seeded changes C04-3 / C04-7: several admissions into one signer zone
+	if raw, err := os.ReadFile(filepath.Join(os.Getenv("VERIF_CORPUS"), "proofhist.jsonl")); err == nil {
+		for _, line := range strings.Split(string(raw), "\n") {
+			if line = strings.TrimSpace(line); line == "" || strings.HasPrefix(line, "#") {
+				continue
+			}
+			plan := new(vC04PHPlan)
+			if err := json.Unmarshal([]byte(line), plan); err != nil {
+				t.Fatalf("corpus proofhist.jsonl: %v", err)
+			}
+			vC04CaseProofHist(out, r, plan)
+		}
+	}
 	for c := 0; c < n; c++ {
 		if c%8 == 7 {
 			// (every eighth case; a proof-tree history emits several cases)
@@ -154,7 +167,7 @@ func TestVerifC04Cuts(t *testing.T) {
 		case 2:
 			vC04CaseProofServe(out, r)
 		case 3:
-			vC04CaseProofHist(out, r)
+			vC04CaseProofHist(out, r, nil)
 		}
 	}
 }
@@ -476,10 +489,33 @@ func vC04CaseProofServe(out *vC04Out, r *rand.Rand) {
 //
 // Both carry the zone's SOA; a later admission replaces the SOA entry and the
 // sets it carries, nothing else.
-func vC04CaseProofHist(out *vC04Out, r *rand.Rand) {
+// vC04PHPlan is one fixed scenario of corpus/C04/proofhist.jsonl: admissions of proof A
+// (denies c.<zone>: NSEC a->m + apex) / proof B (denies p.<zone>: NSEC m->z + apex) into one
+// signer zone, clock steps and lookups.
+type vC04PHOp struct {
+	Op      string `json:"op"`    // admit | step | lookup
+	Which   int    `json:"which"` // 0: proof A / name c, 1: proof B / name p
+	SoaTTL  uint32 `json:"soa_ttl"`
+	SoaMin  uint32 `json:"soa_min"`
+	SetTTL  uint32 `json:"set_ttl"`
+	SigExpS int64  `json:"sig_exp_s"`
+	LeaseS  int64  `json:"lease_s"` // 0: no lease
+	Ms      int64  `json:"ms"`
+}
+type vC04PHPlan struct {
+	Name    string     `json:"name"`
+	MaxTTLs int64      `json:"max_ttl_s"`
+	Ops     []vC04PHOp `json:"ops"`
+}
+
+func vC04CaseProofHist(out *vC04Out, r *rand.Rand, plan *vC04PHPlan) {
 	base := time.Unix(int64(1790000000+r.Intn(100000)), int64(r.Intn(1000000000)))
 	cur := base
 	maxTTL := []time.Duration{3 * time.Hour, 3 * time.Hour, 90 * time.Second, 24 * time.Hour}[r.Intn(4)]
+	if plan != nil {
+		maxTTL = time.Duration(plan.MaxTTLs) * time.Second
+	}
+	var pop *vC04PHOp // the scenario step being executed
 	cache := newDenialProofCacheWithConfig(denialProofCacheConfig{
 		MaxEntries: 64, MaxEntriesPerZone: 32, MaxBytes: denialProofDerivedBytes(64), MaxBytesPerZone: denialProofDerivedBytes(32),
 		MaxTTL: maxTTL, Now: func() time.Time { return cur },
@@ -508,6 +544,12 @@ func vC04CaseProofHist(out *vC04Out, r *rand.Rand) {
 		}
 		soaTTL, soaMin := negTTLs[r.Intn(len(negTTLs))], negTTLs[r.Intn(len(negTTLs))]
 		t1, t0 := setTTLs[r.Intn(len(setTTLs))], setTTLs[r.Intn(len(setTTLs))]
+		if pop != nil {
+			soaTTL, soaMin, t1, t0 = pop.SoaTTL, pop.SoaMin, pop.SetTTL, pop.SetTTL
+			fixed := cur.Unix() + pop.SigExpS
+			exp = func() int64 { return fixed }
+			sig = func(o string, covered uint16, ttl uint32) *dns.RRSIG { return vC04Sig(o, covered, ttl, fixed, zone) }
+		}
 		m := new(dns.Msg)
 		m.SetQuestion(denied, dns.TypeA)
 		m.Response = true
@@ -555,10 +597,19 @@ func vC04CaseProofHist(out *vC04Out, r *rand.Rand) {
 	}
 	admit := func() {
 		which := r.Intn(2)
+		if pop != nil {
+			which = pop.Which
+		}
 		m, owner := build(which)
 		var cut time.Time
 		if r.Intn(4) == 0 {
 			cut = cur.Add(time.Duration(5+r.Intn(300)) * time.Second)
+		}
+		if pop != nil {
+			cut = time.Time{}
+			if pop.LeaseS != 0 {
+				cut = cur.Add(time.Duration(pop.LeaseS) * time.Second)
+			}
 		}
 		ok := cache.recordWithKind(m, zone, denialProofNSEC, cut)
 		common := m.Ns[0:2]
@@ -575,6 +626,9 @@ func vC04CaseProofHist(out *vC04Out, r *rand.Rand) {
 	}
 	lookup := func() {
 		which := r.Intn(2)
+		if pop != nil {
+			which = pop.Which
+		}
 		qname, needed := "C."+zone, []int{1, 0}
 		if which == 1 {
 			qname, needed = "p."+zone, []int{2, 0}
@@ -629,19 +683,37 @@ func vC04CaseProofHist(out *vC04Out, r *rand.Rand) {
 		}
 		cur = cur.Add([]time.Duration{time.Second, 10 * time.Second, 25 * time.Second, 50 * time.Second, 61 * time.Second, 5 * time.Minute}[r.Intn(6)])
 	}
-	admit()
-	for i, n := 0, 5+r.Intn(8); i < n; i++ {
-		switch x := r.Intn(10); {
-		case x < 3:
-			admit()
-		case x < 6:
-			step()
-		default:
-			lookup()
+	kk := "proof-history"
+	if plan != nil {
+		kk = "corpus-proof-history"
+		for i := range plan.Ops {
+			pop = &plan.Ops[i]
+			switch pop.Op {
+			case "admit":
+				admit()
+			case "step":
+				cur = cur.Add(time.Duration(pop.Ms) * time.Millisecond)
+			case "lookup":
+				lookup()
+			default:
+				panic("corpus proofhist.jsonl: unknown op " + pop.Op)
+			}
 		}
+	} else {
+		admit()
+		for i, n := 0, 5+r.Intn(8); i < n; i++ {
+			switch x := r.Intn(10); {
+			case x < 3:
+				admit()
+			case x < 6:
+				step()
+			default:
+				lookup()
+			}
+		}
+		lookup()
 	}
-	lookup()
-	out.emit(map[string]any{"k": "proof-history", "nontrivial": true, "go_fail": fail,
+	out.emit(map[string]any{"k": kk, "nontrivial": true, "go_fail": fail,
 		"coq": fmt.Sprintf("CProofHist %s [%s]", vC04Z(int64(maxTTL)), strings.Join(steps, "; ")), "desc": desc})
 }
 
